@@ -178,3 +178,22 @@ Qed.
 (* a name that is nowhere — not even in the module globals / Python builtins — is reported as AttributeError naming it *)
 Example ex_ns_undefined_with_outer : vals_of (ns_case Generated.builtin_helper_names ["np"; "abs"] ["X"] None None "nope") = EAttributeError "nope".
 Proof. vm_compute. reflexivity. Qed.
+
+(* ---- kept finding (names-invisible-in-nested-scopes): eval() hands the assembled namespace to CPython as LOCALS; a free name of a
+        nested scope of the expression (lambda, generator expression) is resolved by CPython in the GLOBALS only.  CPython's scoping
+        is outside the model (pyeval is abstract); the witness instantiates pyeval with that rule for a bare name standing for
+        such a free occurrence: a DEFINED name — a variable, a helper, a caller local — is reported as undefined ---- *)
+Definition name_lookup_in_nested_scope (outer : ns string) (text : string) (d : ns string) : pyres string :=
+  match ns_get string outer text with Some v => PVal v | None => PNameError text end.
+
+Theorem defined_name_in_nested_scope_refuted :
+  exists (tbl vars : list string) (locals : list string) (name : string),
+    existsb (String.eqb name) vars = true /\
+    snd (eval_M string (fun _ => false) (fun _ => Raise KeyError) (name_lookup_in_nested_scope (tagged "G" ["np"; "abs"]))
+                [tagged "T" tbl] 0%nat (tagged "V" vars) name (Some (tagged "L" locals)) None) = EAttributeError name /\
+    snd (eval_M string (fun _ => false) (fun _ => Raise KeyError) (name_lookup_in_nested_scope (tagged "G" ["np"; "abs"]))
+                [tagged "T" tbl] 0%nat (tagged "V" vars) "lag" (Some (tagged "L" locals)) None) = EAttributeError "lag" /\
+    snd (eval_M string (fun _ => false) (fun _ => Raise KeyError) (name_lookup_in_nested_scope (tagged "G" ["np"; "abs"]))
+                [tagged "T" tbl] 0%nat (tagged "V" vars) "k" (Some (tagged "L" locals)) None) = EAttributeError "k" /\
+    existsb (String.eqb "lag") tbl = true /\ existsb (String.eqb "k") locals = true.
+Proof. exists Generated.builtin_helper_names, ["X"], ["k"], "X". repeat split; vm_compute; reflexivity. Qed.
